@@ -60,6 +60,10 @@ def gen_programs(ctx, n_random, max_small_ops, extra_parens=False):
         out.append((proggen.pp(root), proggen.program_term(root), root, f'small<={max_small_ops}'))
     for name, root in proggen.operator_pairs():
         out.append((proggen.pp(root), proggen.program_term(root), root, 'pairs'))
+    for name, root in proggen.logic_shapes():
+        out.append((proggen.pp(root), proggen.program_term(root), root, 'logic'))
+    for name, root in proggen.loop_shapes():
+        out.append((proggen.pp(root), proggen.program_term(root), root, 'loops'))
     for _ in range(n_random):
         root = proggen.gen_program(rnd, rnd.randint(1, 4))
         src = proggen.pp(root, rnd if extra_parens else None)
